@@ -4,32 +4,47 @@ import os, subprocess, json, shutil, fcntl, sys, time
 from . import front
 
 VERIF = os.path.dirname(os.path.dirname(os.path.abspath(__file__)))
-CRATE = os.path.join(VERIF, 'replay')
+CRATES = {'lib': ('replay', 'jjreplay'), 'cli': ('replay_cli', 'jjreplay-cli')}
+WHICH = {'c44': 'cli'}
 _built = {}
 
-def build(profile='dev'):
-    if profile in _built: return _built[profile]
-    tdir = os.path.join(front.CACHE, 'replay-target')
-    os.makedirs(tdir, exist_ok=True)
-    with open(os.path.join(front.CACHE, '.lock-replay'), 'w') as lk:
+def build(profile='dev', which='lib'):
+    """build the runner against front.REPO (default /repo).  The crate sources live in /verif/<crate>; a copy with the repository
+    path substituted is placed in the cache so that the same sources can be built against a scratch worktree (VERIF_REPO)."""
+    if (profile, which) in _built: return _built[(profile, which)]
+    import hashlib
+    src = os.path.join(VERIF, CRATES[which][0])
+    tag = 'main' if os.path.realpath(front.REPO) == '/repo' else hashlib.sha256(os.path.realpath(front.REPO).encode()).hexdigest()[:10]
+    crate = os.path.join(front.CACHE, 'replay-crates', f'{which}-{tag}')
+    tdir = os.path.join(front.CACHE, 'replay-target' if tag == 'main' else f'replay-target-{tag}')
+    os.makedirs(tdir, exist_ok=True); os.makedirs(os.path.join(crate, 'src'), exist_ok=True)
+    with open(os.path.join(front.CACHE, f'.lock-replay-{which}-{tag}'), 'w') as lk:
         fcntl.flock(lk, fcntl.LOCK_EX)
-        lock = os.path.join(CRATE, 'Cargo.lock')
+        def sync(a, b, subst=False):
+            txt = open(a).read()
+            if subst: txt = txt.replace('"/repo/', '"' + os.path.realpath(front.REPO) + '/')
+            if not os.path.exists(b) or open(b).read() != txt: open(b, 'w').write(txt)
+        sync(os.path.join(src, 'Cargo.toml'), os.path.join(crate, 'Cargo.toml'), subst=True)
+        for f in os.listdir(os.path.join(src, 'src')): sync(os.path.join(src, 'src', f), os.path.join(crate, 'src', f))
+        for f in os.listdir(os.path.join(crate, 'src')):
+            if not os.path.exists(os.path.join(src, 'src', f)): os.remove(os.path.join(crate, 'src', f))
+        lock = os.path.join(crate, 'Cargo.lock')
         # keep dependency versions pinned to the repository's lock file
         if not os.path.exists(lock) or os.path.getmtime(lock) < os.path.getmtime(os.path.join(front.REPO, 'Cargo.lock')):
             shutil.copy(os.path.join(front.REPO, 'Cargo.lock'), lock)
         env = dict(os.environ, CARGO_NET_OFFLINE='true', CARGO_TARGET_DIR=tdir, CARGO_TERM_COLOR='never', RUSTUP_TOOLCHAIN='stable')
         env.pop('RUSTFLAGS', None)
-        cmd = ['cargo', 'build', '--offline', '--manifest-path', os.path.join(CRATE, 'Cargo.toml')] + (['--release'] if profile == 'release' else [])
+        cmd = ['cargo', 'build', '--offline', '--manifest-path', os.path.join(crate, 'Cargo.toml')] + (['--release'] if profile == 'release' else [])
         t0 = time.time()
         r = subprocess.run(cmd, env=env, stdout=subprocess.PIPE, stderr=subprocess.STDOUT, text=True)
         if r.returncode != 0:
             raise RuntimeError('replay runner build failed:\n' + r.stdout[-3000:])
-        if time.time() - t0 > 5: print(f'[native] built replay runner in {time.time() - t0:.0f}s', file=sys.stderr)
-    _built[profile] = os.path.join(tdir, 'release' if profile == 'release' else 'debug', 'jjreplay')
-    return _built[profile]
+        if time.time() - t0 > 5: print(f'[native] built replay runner ({which}) in {time.time() - t0:.0f}s', file=sys.stderr)
+    _built[(profile, which)] = os.path.join(tdir, 'release' if profile == 'release' else 'debug', CRATES[which][1])
+    return _built[(profile, which)]
 
 def run(prop, cases, timeout=600, profile='dev'):
-    exe = build(profile)
+    exe = build(profile, WHICH.get(prop, 'lib'))
     inp = '\n'.join(json.dumps(c) for c in cases) + '\n'
     r = subprocess.run([exe, prop], input=inp, stdout=subprocess.PIPE, stderr=subprocess.PIPE, text=True, timeout=timeout)
     outs = [json.loads(l) for l in r.stdout.splitlines() if l.strip()]
